@@ -62,7 +62,7 @@ def cases(tier, seed):
     ne = 64 if tier == 'thorough' else 12
     for k in range(ne):
         out.append({'kind': 'e2e', 'seed': seed * 1000 + k,
-                    'count': 12 if tier == 'thorough' else 5})
+                    'count': 20 if tier == 'thorough' else 14})
     return out
 
 
@@ -211,6 +211,19 @@ def run_case(case):
     return run_e2e(case, stats, viol)
 
 
+def argv_without_positional(opts, positional):
+    """The option vector with the patterns that are given positionally
+    taken out of the -m / -t lists again."""
+    import vworld
+    o = dict(opts)
+    if positional:
+        if positional[0] != '.':
+            o['module'] = list(o.get('module') or [])[:-1]
+        if len(positional) > 1:
+            o['test'] = list(o.get('test') or [])[:-1]
+    return vworld.opts_to_argv(o)
+
+
 def run_e2e(case, stats, viol):
     import gen
     import runcase
@@ -275,6 +288,19 @@ def run_e2e(case, stats, viol):
             opts['module'] = [pick(mods) for _ in range(rng.randint(1, 2))]
         if rng.random() < 0.5:
             opts['layer'] = [pick(lnames) for _ in range(rng.randint(1, 2))]
+        # the legacy positional filters: [module_filter [test_filter]]
+        positional = []
+        if rng.random() < 0.3:
+            mf = rng.choice(['.', pick(mods), pick(mods)])
+            positional = [mf]
+            if mf != '.':
+                opts['module'] = (opts.get('module') or []) + [mf]
+            if rng.random() < 0.6:
+                tf = pick(all_ids)
+                positional.append(tf)
+                opts['test'] = (opts.get('test') or []) + [tf]
+            stats['positional_filter_runs'] = \
+                stats.get('positional_filter_runs', 0) + 1
         want = vworld.expected_tests(spec, opts)
         root = vworld.materialise(spec)
         if stitched:
@@ -284,7 +310,8 @@ def run_e2e(case, stats, viol):
             nv = len(ztr_monitor.VIOLATIONS)
             ev0 = ztr_monitor.COUNTERS.get('eval.accept', 0)
             r = runcase.run_inproc(
-                ['--path', root] + extra_argv + vworld.opts_to_argv(opts),
+                ['--path', root] + extra_argv + argv_without_positional(
+                    opts, positional) + positional,
                 os.path.join(root, 'world.json'),
                 os.path.join(root, 'trace.jsonl'), purge=(prefix,))
             stats['e2e_runs'] += 1
